@@ -135,6 +135,10 @@ func protocolFor(c *Concretizer, o *ROp, cfg *pCfg, req []byte) protocol.Protoco
 		p.NonceSize = 17
 	}
 
+	if cfg.Nonce == "zero" {
+		p.NonceSize = 0
+	}
+
 	return p
 }
 
